@@ -493,6 +493,28 @@ class Parser:
 
         return s.encode()[0]
 
+    def debug_field(
+        self, lbrace: TokenInfo, equal: TokenInfo | None, node: ast.FormattedValue
+    ) -> ast.FormattedValue | ast.JoinedStr:
+        """f'{x = }': the source text of the field up to the token after '=' goes in front of the value."""
+        if not equal:
+            return node
+        tokens = self._tokenizer._tokens
+        idx = next(i for i in range(len(tokens) - 1, -1, -1) if tokens[i] is equal or tokens[i][:3] == equal[:3])
+        (l0, c0), (l1, c1) = lbrace.end, tokens[idx + 1].start  # '!', ':' or the closing brace
+        lines = self._tokenizer.get_lines(list(range(l0, l1 + 1)))
+        lines[-1] = lines[-1][:c1]
+        lines[0] = lines[0][c0:]
+        source = "".join(lines).replace("\r\n", "\n").replace("\r", "\n")  # newlines are translated as in any source text
+        text = ast.Constant(value=source, lineno=l0, col_offset=c0, end_lineno=l1, end_col_offset=c1)
+        return ast.JoinedStr(
+            values=[text, node],
+            lineno=node.lineno,
+            col_offset=node.col_offset,
+            end_lineno=node.end_lineno,
+            end_col_offset=node.end_col_offset,
+        )
+
     def _eval_string_token(self, tok: TokenInfo) -> Any:
         """Value of a STRING token; an invalid literal is reported at the token, not inside it."""
         try:
@@ -587,7 +609,20 @@ class Parser:
         if path_tok:
             self._path_token = path_tok
         self._decode_fstring_parts(b, raw="r" in a.string.rstrip("'\"").lower())
-        return ast.JoinedStr(values=b, **locs)
+        return ast.JoinedStr(values=self._join_fstring_parts(b), **locs)
+
+    @staticmethod
+    def _join_fstring_parts(parts: list[Any]) -> list[Any]:
+        """Splice the [text, value] pairs of debug fields in and merge neighbouring text parts."""
+        out: list[Any] = []
+        for p in parts:
+            for q in p.values if isinstance(p, ast.JoinedStr) else [p]:
+                if out and isinstance(q, ast.Constant) and isinstance(out[-1], ast.Constant):
+                    out[-1].value += q.value
+                    out[-1].end_lineno, out[-1].end_col_offset = q.end_lineno, q.end_col_offset
+                else:
+                    out.append(q)
+        return out
 
     def _decode_fstring_parts(self, parts: list[Any], raw: bool) -> None:
         """Literal parts of an f-string hold source text: undouble braces and decode escapes."""
@@ -599,6 +634,9 @@ class Parser:
                     self.raise_syntax_error_known_location(e.msg, p)
             elif isinstance(p, ast.FormattedValue) and isinstance(p.format_spec, ast.JoinedStr):
                 self._decode_fstring_parts(p.format_spec.values, raw)
+                p.format_spec.values = self._join_fstring_parts(p.format_spec.values)
+            elif isinstance(p, ast.JoinedStr):  # a debug field: its text is source text, only the value is looked into
+                self._decode_fstring_parts(p.values[1:], raw)
         # a literal part that decodes to nothing (a backslash-newline only) is not a part
         parts[:] = [p for p in parts if not (isinstance(p, ast.Constant) and p.value == "")]
 
